@@ -2,6 +2,8 @@
 
 mod chunk;
 
+use std::cmp;
+
 pub use self::chunk::Chunk;
 
 pub(crate) const METADATA_CHUNK_COUNT: u32 = 2;
@@ -68,7 +70,9 @@ impl Bin {
         if let Some(last_chunk) = self.chunks.last_mut()
             && chunk.start() <= last_chunk.end()
         {
-            *last_chunk = Chunk::new(last_chunk.start(), chunk.end());
+            let start = cmp::min(last_chunk.start(), chunk.start());
+            let end = cmp::max(last_chunk.end(), chunk.end());
+            *last_chunk = Chunk::new(start, end);
             return;
         }
 
